@@ -358,9 +358,19 @@ def main():
                 else:
                     notes.append("recorded finding %s no longer reproduces on this tree" % f["id"])
             if need_search and prop.get("search"):
-                r, w = run_replay(binp, ["search", prop["search"], "thorough", str(seed)], timeout=1800)
-                r["wall_s"] = round(w, 2)
-                search_res = r
+                names = prop["search"] if isinstance(prop["search"], list) else [prop["search"]]
+                for nm in names:
+                    r, w = run_replay(binp, ["search", nm, "thorough", str(seed)], timeout=1800)
+                    r["wall_s"] = round(w, 2)
+                    if search_res is None or (r.get("failures", 0) > 0 and not search_res.get("failures", 0)):
+                        prev = search_res
+                        search_res = r
+                        if prev:
+                            search_res.setdefault("also_ran", []).append({"name": prev.get("name"), "cases": prev.get("cases"), "failures": prev.get("failures")})
+                    else:
+                        search_res.setdefault("also_ran", []).append({"name": r.get("name"), "cases": r.get("cases"), "failures": r.get("failures")})
+                    if search_res.get("failures", 0) > 0:
+                        break
     elif wants_replay:
         notes.append("replay crate not present")
 
